@@ -84,7 +84,9 @@ func (g *rgen) leafType() reflect.Type {
 func directedType(idx int64) reflect.Type {
 	ts := leafTypes()
 	t := reflect.TypeOf(ts[int(idx)%len(ts)])
-	switch (int(idx) / len(ts)) % 6 {
+	switch (int(idx) / len(ts)) % 8 {
+	case 6, 7:
+		return reflect.PointerTo(t) // encrCase makes these a typed nil pointer / a slice holding typed nil pointers
 	case 0:
 		return reflect.SliceOf(t)
 	case 1:
@@ -412,6 +414,14 @@ func encrfCase(seed int64, proto int, su bool, k int) (out string) {
 		t, depth = directedType(-seed-1), 3
 	}
 	v, _ := g.fill(t, depth)
+	if seed < 0 {
+		switch (int(-seed-1) / len(leafTypes())) % 8 {
+		case 6:
+			v = reflect.Zero(t)
+		case 7:
+			v = reflect.MakeSlice(reflect.SliceOf(t), 2, 2)
+		}
+	}
 	var arg any
 	if v.IsValid() && v.CanInterface() {
 		arg = v.Interface()
@@ -450,6 +460,14 @@ func encrCase(seed int64, proto int, su bool) (out string) {
 		t, depth = directedType(-seed-1), 3
 	}
 	v, desc := g.fill(t, depth)
+	if seed < 0 {
+		switch (int(-seed-1) / len(leafTypes())) % 8 {
+		case 6: // (*T)(nil): a typed nil pointer is None, whatever T
+			v, desc = reflect.Zero(t), "inv"
+		case 7: // []*T{nil, nil}
+			v, desc = reflect.MakeSlice(reflect.SliceOf(t), 2, 2), "seq( inv inv )"
+		}
+	}
 	var arg any
 	if v.IsValid() && v.CanInterface() {
 		arg = v.Interface()
